@@ -238,6 +238,13 @@ def jobs(tier, seed):
         b = sb if kind.startswith("string") else rb
         out.append(Job("C09_" + k, src, [dict(name="adversarial " + k, fn=check_variant, kw=dict(k=k, kind=kind, bound=b), unwind=40),
                                          dict(name="sequential " + k, fn=check_seq, kw=dict(k=k, kind=kind), unwind=40)], flags=flags))
+    # "never longer than the length that was range-checked" for lengths beyond the string bound of this check: the range
+    # check itself is decided for every 64-bit length by C10's kernels (same oracles)
+    from specs import C10
+    for j in C10.jobs("quick", seed):
+        keep = [c for c in j.checks if c["name"] in ("copy_and_verify_buffer_address char", "copy_and_verify_range char", "copy_and_verify_string")]
+        if keep:
+            out.append(Job(j.name.replace("C10_", "C09_range_"), j.source, keep, flags=j.flags, unwind=j.unwind, compare_logs=j.compare_logs, native=j.want_native))
     wsrc = '#include "verif_sandbox.hpp"\nusing S = B32W;\n#include "C09_kernels.inc"\n'
     out.append(Job("C09_B32W_narrow", wsrc, [dict(name="adversarial narrowing k_cav_vol_int (64-bit guest int)", fn=check_narrow, kw=dict(k="k_cav_vol_int", abits=32), unwind=40)],
                    flags=flags, native=False))
